@@ -1,9 +1,83 @@
 import NibabelModel.Model.C15
 import Driver.Util
-/-! Line-protocol driver for C15: `C15 <op> <args...>` -> one observable line. -/
+/-! Line-protocol driver for C15: `C15 hist <op> <op> ...` -> the observable after every step.
+    Op tokens (fields separated by `:`), see harness/props/c15.py `fmt_op`. -/
 namespace Nb.Drv.C15
+open Nb Nb.C15
+
+def parseRow? (s : String) : Option Row := (s.splitOn ",").mapM (·.toInt?)
+
+/-- `e` = zero-row array; rows separated by `/` -/
+def parseElem? (s : String) : Option Elem :=
+  if s = "e" then some [] else (s.splitOn "/").mapM parseRow?
+
+/-- `~` = empty list; arrays separated by `+` -/
+def parseElems? (s : String) : Option (List Elem) :=
+  if s = "~" then some [] else (s.splitOn "+").mapM parseElem?
+
+def parseBits? (s : String) : Option (List Bool) :=
+  if s = "-" then some [] else
+    s.toList.mapM (fun c => if c = '0' then some false else if c = '1' then some true else none)
+
+def parseOp? (tok : String) : Option Op :=
+  match tok.splitOn ":" with
+  | ["new", b] => b.toNat?.map Op.new
+  | ["app", t, w, dt, el] => do pure (Op.append (← t.toNat?) (← w.toNat?) (← dt.toNat?) (← parseElem? el))
+  | ["ext", t, w, dt, els] => do pure (Op.extend (← t.toNat?) (← w.toNat?) (← dt.toNat?) (← parseElems? els))
+  | ["extg", t, w, dt, els] => do pure (Op.extendGen (← t.toNat?) (← w.toNat?) (← dt.toNat?) (← parseElems? els))
+  | ["exts", t, u, w] => do pure (Op.extendSeq (← t.toNat?) (← u.toNat?) (← w.toNat?))
+  | ["view", t, b] => do pure (Op.view (← t.toNat?) (← b.toNat?))
+  | ["copy", t] => do pure (Op.copy (← t.toNat?))
+  | ["sl", t, a, b, c] => do pure (Op.slice (← t.toNat?) ⟨← parseOptInt? a, ← parseOptInt? b, ← parseOptInt? c⟩)
+  | ["idx", t, l] => do pure (Op.fancy (← t.toNat?) (← parseIntList? l))
+  | ["mask", t, m] => do pure (Op.mask (← t.toNat?) (← parseBits? m))
+  | ["get", t, i] => do pure (Op.getInt (← t.toNat?) (← i.toInt?))
+  | ["set", t, i, el] => do pure (Op.setInt (← t.toNat?) (← i.toInt?) (← parseElem? el))
+  | ["sets", t, a, b, c, els] => do
+      pure (Op.setSlice (← t.toNat?) ⟨← parseOptInt? a, ← parseOptInt? b, ← parseOptInt? c⟩ (← parseElems? els))
+  | ["iop", t, code, k] => do pure (Op.iop (← t.toNat?) (← code.toNat?) (← k.toInt?))
+  | ["op", t, code, k] => do pure (Op.op (← t.toNat?) (← code.toNat?) (← k.toInt?))
+  | ["cat", ts, w] => do pure (Op.concat (← parseNatList? ts) (← w.toNat?))
+  | _ => none
+
+def showElem (e : Elem) : String := showList (e.map showList)
+
+def showSeq (σ : State) (t : Nat) : String :=
+  let c := σ.contents t
+  showList (c.map showElem) ++ ":" ++
+    (if c.isEmpty then "-" else toString (σ.bufAt (σ.seqAt t).buf).dt)
+
+def showAll (σ : State) : String :=
+  "|".intercalate ((List.range σ.seqs.length).map (showSeq σ))
+
+def showErr : Err → String
+  | .index => "ERR:IndexError"
+  | .value => "ERR:ValueError"
+  | .stopIter => "ERR:StopIteration"
+  | .bad => "BAD"
+
+/-- run the history, one output chunk per step; `none` = ill-formed operation -/
+def runShow (σ : State) : List Op → Option (List String)
+  | [] => some []
+  | op :: ops =>
+    match step σ op with
+    | .error .bad => none
+    | .error e => (runShow σ ops).map (fun r => (showErr e ++ "|" ++ showAll σ) :: r)
+    | .ok σ' =>
+      let status := match op with
+        | .getInt t i => match getInt σ t i with
+          | some e => "get=" ++ showElem e
+          | none => "BAD"
+        | _ => "ok"
+      (runShow σ' ops).map (fun r => (status ++ "|" ++ showAll σ') :: r)
 
 def handle : List String → String
+  | "hist" :: toks =>
+      match toks.mapM parseOp? with
+      | some ops => match runShow State.init ops with
+        | some outs => " ; ".intercalate outs
+        | none => "bad-op"
+      | none => "bad-op"
   | _ => "bad-op"
 
 end Nb.Drv.C15
